@@ -83,6 +83,19 @@ def place(prog, ch, ntexts):
                     lines += [ind + pre + body[:k] + " & " + t, ind + "    &" + body[k:]]
                     inner.append((t, "inner-trailing"))  # after code on its line: never a directive
                 line = None
+        # a character literal continued over two lines with a comment line
+        # BETWEEN its halves (F2003 3.3.2.4 allows it; the text of the comment
+        # may itself end in '&')
+        mlit = re.search(r"(['\"])[^'\"&!]{3,}\1", body)
+        if line is not None and mlit:
+            lc = ch.choose(3, "litcont")
+            if lc:
+                t = text() + (" &" if lc == 2 else "")
+                cut = mlit.start() + 2
+                pre = (s.label + " " if s.label else "") + (s.name + ": " if s.name else "")
+                lines += [ind + pre + body[:cut] + "&", ind + "  " + t, ind + "    &" + body[cut:]]
+                inner.append((t, "inner"))
+                line = None
         # ';' join with the next statement (comments of the physical line are
         # delivered after the LAST statement of the line)
         joined = False
